@@ -147,6 +147,8 @@ let c01_judge cs obs =
   | None -> "ok-skip outside-grammar"
   | Some rows ->
     let table = List.map snd rows and idx = List.map fst rows in
+    if List.exists (fun r -> r.s_pat <> None && not (link_ok r.s_path)) table
+    then "bad model-link-broken the string-level pattern compiler and the grammar-level one disagree on start/first/names" else
     let mqs = List.filter (fun (k, _, _) -> k = "m") c.qs in
     let rec go mqs qs = match mqs, qs with
       | [], [] -> "ok"
